@@ -5,6 +5,8 @@ package props
 import (
 	"errors"
 	"fmt"
+	"github.com/Jigsaw-Code/outline-ss-server/service"
+	"io"
 	"net"
 	"net/netip"
 	"sort"
@@ -736,5 +738,105 @@ func runC20Conc(c C20Conc, info *kit.Info) *kit.Finding {
 
 func TestC20_Concurrent(t *testing.T) {
 	p := kit.Prop[C20Conc]{ID: "C20", Name: "Concurrent", Quick: 60, Thorough: 4000, Gen: genC20Conc, Run: runC20Conc}
+	p.Execute(t)
+}
+
+// ---- end to end: the real TCP service in front of the real collector ------------------------------------
+// Clients on distinctive loopback addresses go through the real stream handler with the real Prometheus
+// collector as its metrics sink: valid relays, probes that end with FIN, with a reset in the middle of the drain,
+// or by timeout. Nothing the registry exports afterwards may contain a client's IP or ":port".
+
+type C20E2E struct {
+	Conns []string `json:"conns"` // relay | probe_fin | probe_rst | probe_hold
+	Seed  int64    `json:"seed"`
+}
+
+func genC20E2E(t *rapid.T) C20E2E {
+	return C20E2E{Conns: rapid.SliceOfN(rapid.SampledFrom([]string{"relay", "probe_fin", "probe_rst", "probe_rst", "probe_hold"}), 1, 8).Draw(t, "conns"), Seed: rapid.Int64Range(1, 1<<40).Draw(t, "seed")}
+}
+
+func runC20E2E(c C20E2E, info *kit.Info) *kit.Finding {
+	sm, err := outline_prometheus.NewServiceMetrics(&fakeDB{Mode: "hit", CC: "BR", ASN: 64512, Org: "org"})
+	if err != nil {
+		return kit.Violation("expo:setup", "%v", err)
+	}
+	reg := prometheus.NewRegistry()
+	reg.MustRegister(sm)
+	ks := kit.KeySpec{ID: "user-1", Cipher: kit.Chacha, Secret: "e2e-secret"}
+	key := ks.Key()
+	svc, err := service.NewShadowsocksService(service.WithCiphers(kit.NewCipherList([]kit.KeySpec{ks})), service.WithMetrics(sm))
+	if err != nil {
+		return kit.Violation("expo:setup", "%v", err)
+	}
+	l, err := kit.ListenTCPLow(&net.TCPAddr{IP: net.IPv4(127, 0, 0, 1)})
+	if err != nil {
+		info.Skipped = err.Error()
+		return nil
+	}
+	served := make(chan struct{})
+	go func() {
+		service.StreamServe(service.WrapStreamAcceptFunc(l.AcceptTCP), svc.HandleStream)
+		close(served)
+	}()
+	var clients []string
+	for i, kind := range c.Conns {
+		// a client address that occurs nowhere else: 127.77.x.y, port chosen by the kernel
+		ip := net.IPv4(127, 77, byte(1+i), byte(2+c.Seed%200))
+		d := net.Dialer{Timeout: 3 * time.Second, LocalAddr: &net.TCPAddr{IP: ip}}
+		cn, err := d.Dial("tcp", l.Addr().String())
+		if err != nil {
+			continue
+		}
+		tc := cn.(*net.TCPConn)
+		clients = append(clients, ip.String(), fmt.Sprintf(":%d", tc.LocalAddr().(*net.TCPAddr).Port))
+		switch kind {
+		case "relay":
+			// a destination the default policy refuses: authenticated, then closed with ERR_ADDRESS_*
+			tc.Write(kit.EncodeStream(key, kit.DetBytes(c.Seed+int64(i), key.SaltSize()), append(kit.SocksAddr("127.0.0.1", 9, false), "x"...), nil))
+			tc.CloseWrite()
+			io.Copy(io.Discard, tc)
+		case "probe_fin":
+			tc.Write(kit.DetBytes(c.Seed+int64(i), 64))
+			tc.CloseWrite()
+			io.Copy(io.Discard, tc)
+		case "probe_rst":
+			tc.Write(kit.DetBytes(c.Seed+int64(i), 64))
+			time.Sleep(30 * time.Millisecond) // the server is draining by now
+			tc.Write([]byte("more"))
+			tc.SetLinger(0)
+		case "probe_hold":
+			tc.Write(kit.DetBytes(c.Seed+int64(i), 10))
+			time.Sleep(20 * time.Millisecond)
+		}
+		tc.Close()
+		info.Class("e2e:" + kind)
+	}
+	l.Close()
+	select {
+	case <-served:
+	case <-time.After(5 * time.Second): // a held probe lasts until the (59 s) timeout only if the client stays: all clients are gone
+		return kit.Violation("expo:serve-did-not-stop", "StreamServe did not return within 5 s although every client had closed")
+	}
+	mfs, err := reg.Gather()
+	if err != nil {
+		return kit.Violation("expo:gather", "%v", err)
+	}
+	for _, mf := range mfs {
+		for _, m := range mf.GetMetric() {
+			for _, lp := range m.GetLabel() {
+				for _, needle := range clients {
+					if strings.Contains(lp.GetValue(), needle) || strings.Contains(mf.GetName(), needle) {
+						return kit.Violation("expo:client-address-exposed", "%s{%s=%q} contains %q, which identifies a client (connection kinds of this case: %v)", mf.GetName(), lp.GetName(), lp.GetValue(), needle, c.Conns)
+					}
+				}
+			}
+		}
+	}
+	info.NonTrivial, info.Steps = true, len(c.Conns)
+	return nil
+}
+
+func TestC20_E2E(t *testing.T) {
+	p := kit.Prop[C20E2E]{ID: "C20", Name: "E2E", Quick: 60, Thorough: 4000, Gen: genC20E2E, Run: runC20E2E}
 	p.Execute(t)
 }
